@@ -6,7 +6,7 @@ C38 driver.  Op lines (grammar: top of harness/src/bin/c38.rs)
   session <zero|tiny|large>
   create <t> s=<0|1> f=<f> <n> | append <t> f=<f> <n> | overwrite <t> f=<f> <n> | delete <t> <lo> <hi>
   restore <t> <v> | index <t> | drop <t>
-  scan <t> | scanv <t> <v> | count <t> | indices <t> | txn <t> <v> | take <t> <ids> | fscan <t> <lo>
+  scan <t> | scanv <t> <v> | count <t> | indices <t> | txn <t> <v> | take <t> <ids> | fscan <t> <lo> | txnh <t>
 
 The state is the model world plus the uuids of the indices in creation order (an index is printed as `i<k>`).
 The output is what a session with caching disabled reads; the cache capacity of the `session` line changes nothing here —
@@ -151,6 +151,13 @@ def step (s : St) (line : String) : St × String :=
       match latestOf s.w t with
       | none => (s, "err not_found")
       | some m => (s, showIndices s.idx m.indices)
+  | ["txnh", t] =>
+    match parseTab t with
+    | none => (s, "err parse")
+    | some t =>
+      match latestOf s.w t with
+      | none => (s, "err not_found")
+      | some m => (s, "txn=" ++ showKind m.txn.kind ++ " rv=" ++ toString m.txn.readVersion)
   | ["txn", t, v] =>
     match parseTab t, parseNat v with
     | some t, some v =>
